@@ -474,7 +474,20 @@ func runCase(f *fixture, name string, slots [3]outcome, rng *rand.Rand, idx int)
 	f.cur.Store(c)
 
 	link := &protocol.Link{Alpn: []protocol.Link_ALPN{protocol.Link_HTTP, protocol.Link_TCP, protocol.Link_HTTP2}[rng.Intn(3)], Hostname: host, Remote: fmt.Sprintf("203.0.113.%d:%d", rng.Intn(250), 1024+rng.Intn(50000))}
+	start := time.Now()
 	conn, derr := f.A.Server.DialClient(context.Background(), link)
+	elapsed := time.Since(start)
+	nSilent := 0
+	for _, o := range slots {
+		if o == oRSilent {
+			nSilent++
+		}
+	}
+	// getConn waits at most 3 s for a remote status; a case without a silent remote
+	// finishes in milliseconds. If it took seconds, the machine stalled and a real
+	// remote may have missed that deadline: "a reachable client was not reached"
+	// then decides nothing.
+	stalled := elapsed > time.Duration(nSilent)*3*time.Second+2*time.Second
 
 	rep := report{Case: name, Hostname: host, Same: same}
 	for _, o := range slots {
@@ -616,6 +629,8 @@ func runCase(f *fixture, name string, slots [3]outcome, rng *rand.Rand, idx int)
 			c.viol("link-on-failure", fmt.Sprintf("DialClient failed (%v) but clients %v received a link", derr, rep.Links))
 		}
 		switch {
+		case nOk > 0 && stalled:
+			incon = fmt.Sprintf("DialClient took %v (machine stalled?) and failed with %v although a client is reachable", elapsed, derr)
 		case nOk > 0:
 			c.viol("reachable-not-reached", fmt.Sprintf("slots %v: a client of %s accepts streams, DialClient failed: %v", rep.Slots, host, derr))
 		case nNone == 3:
